@@ -797,6 +797,21 @@ def r5_loop_progress(corpus: Corpus, rep: Report, tier: str):
                     f"{site}: `while {short(w.test, 40)}` in {fi.qualname}: no progress variant recognised (modelled: shrinking the tested list, bounded counter, find-then-slice, "
                     "reading the stream, counter in the candidate, tree descent) and no cyclic path could be proven to change nothing the tests read",
                 )
+    # recursion that stands for a loop: a method calling itself with no arguments relies on a state change per call; its depth
+    # is the number of iterations (InventoryFileReader.readline recursed once per short read: RecursionError)
+    for fi in corpus.all_functions():
+        if fi.is_lambda or fi.cls is None:
+            continue
+        for c in fi.local_nodes():
+            if isinstance(c, ast.Call) and isinstance(c.func, ast.Attribute) and c.func.attr == fi.name and isinstance(c.func.value, ast.Name) and c.func.value.id == "self" and not c.args and not c.keywords:
+                if len(fi.params) <= 1:
+                    rep.violation(
+                        "C01.R5",
+                        f"{fi.fq}|recursion instead of a loop",
+                        fi.module.site(c),
+                        f"`{short(c, 40)}` re-enters {fi.qualname} with nothing but changed object state: the recursion depth is the number of iterations the state change needs "
+                        "(one frame per stream read / per retry), so a long enough input ends in RecursionError",
+                    )
     rep.expect_min("C01.R5", 5, "while loops outside options.py")
 
 
@@ -1786,6 +1801,17 @@ def _isolation(fi: FunctionInfo, call: ast.Call, var: str, unknown: list) -> str
     if blk is not None:
         for prev in reversed(blk[: blk.index(st)]):
             if not any(isinstance(x, ast.Name) and x.id == var for x in ast.walk(prev)):
+                continue
+            # a statement that only looks at the node (isinstance test, plain copy of the reference) without touching
+            # its names, calling a method on it or handing it to a call cannot change what the registration will offer
+            harmless = isinstance(prev, (ast.Assign, ast.AnnAssign)) and not any(
+                (_names_slot(x, var))
+                or (isinstance(x, ast.Call) and dotted(x.func) != "isinstance" and any(isinstance(y, ast.Name) and y.id == var for y in ast.walk(x)))
+                or (isinstance(x, ast.Name) and x.id == var and isinstance(x.ctx, (ast.Store, ast.Del)))
+                or (isinstance(x, (ast.Attribute, ast.Subscript)) and isinstance(x.ctx, (ast.Store, ast.Del)) and _root(x) == var)
+                for x in ast.walk(prev)
+            )
+            if harmless:
                 continue
             if (
                 isinstance(prev, ast.Assign)
@@ -3224,10 +3250,276 @@ def r17_transition_parent(corpus: Corpus, rep: Report, tier: str):
     rep.expect_min("C01.R17", 1, "places where a transition is attached")
 
 
+# ---------------------------------------------------------------------------
+# R18 a document cannot choose code that the parse then runs
+#
+# (a) ``global_only`` configuration fields (``heading_slug_func`` is imported from a dotted path and called with every
+#     heading) must be refused by the file-level merge: otherwise the front matter names a callable (``os._exit``,
+#     ``sys.exit``) that is called during the parse - SystemExit and worse leave ``except Exception``.
+# (b) template expressions of the document are rendered in a *sandboxed* Jinja environment.
+
+
+@rule("C01.R18")
+def r18_document_chosen_code(corpus: Corpus, rep: Report, tier: str):
+    rep.rule("C01.R18", "global_only configuration fields are refused in the file-level merge, and document templates are rendered in a sandboxed Jinja environment")
+    fields = _config_fields(corpus)
+    go = sorted(f for f, m in fields.items() if "global_only" in m and not (isinstance(m["global_only"], ast.Constant) and not m["global_only"].value))
+    mfl = corpus.func("config.main:merge_file_level")
+    cfg = get_cfg(mfl)
+    applies = [
+        c for c in mfl.local_nodes()
+        if isinstance(c, ast.Call) and ((dotted(c.func) == "setattr" and len(c.args) == 3) or (dotted(c.func) or "").split(".")[-1] == "validate_field")
+        and any(isinstance(a, ast.For) for a in ancestors(c))
+    ]
+    if not applies:
+        rep.error("C01.R18", f"{mfl.site()}: merge_file_level no longer applies the front-matter values with setattr / validate_field")
+    k = f"{mfl.fq}|global_only fields refused"
+    if not go:
+        rep.ok("C01.R18", k, mfl.site(), "no configuration field is marked global_only")
+    else:
+        bad = None
+        for c in applies:
+            refused = False
+            for t, pol in cfg.guards(cfg.stmt_of(c)):
+                t = _single_def(mfl, t)
+                if isinstance(t, ast.Call) and isinstance(t.func, ast.Attribute) and t.func.attr == "get" and unparse(t.func.value).endswith(".metadata") and t.args and isinstance(t.args[0], ast.Constant) and t.args[0].value == "global_only" and not pol:
+                    refused = True
+                if isinstance(t, ast.Subscript) and unparse(t.value).endswith(".metadata") and isinstance(t.slice, ast.Constant) and t.slice.value == "global_only" and not pol:
+                    refused = True
+                if isinstance(t, ast.Compare) and len(t.ops) == 1 and isinstance(t.ops[0], (ast.In, ast.NotIn)) and isinstance(t.comparators[0], (ast.Tuple, ast.List, ast.Set, ast.Name)):
+                    r = t.comparators[0]
+                    r = mfl.module.const_nodes.get(r.id, r) if isinstance(r, ast.Name) else r
+                    if isinstance(r, (ast.Tuple, ast.List, ast.Set)) and {x.value for x in r.elts if isinstance(x, ast.Constant)} >= set(go):
+                        if (isinstance(t.ops[0], ast.In) and not pol) or (isinstance(t.ops[0], ast.NotIn) and pol):
+                            refused = True
+            if not refused:
+                bad = c
+                break
+        if bad is None:
+            rep.ok("C01.R18", k, mfl.site(), f"every application of a front-matter value is dominated by the refusal of global_only fields ({', '.join(go)})")
+        else:
+            rep.violation(
+                "C01.R18",
+                k,
+                mfl.module.site(bad),
+                f"`{short(bad, 50)}` applies a front-matter value without first refusing the global_only fields ({', '.join(go)}): `myst: {{heading_slug_func: os._exit}}` makes the parse "
+                "import and call what the document names (SystemExit / process exit / arbitrary code out of the parse)",
+            )
+    # (b) Jinja environments
+    n_env = 0
+    for fi in corpus.all_functions():
+        if fi.is_lambda:
+            continue
+        for c in fi.local_nodes():
+            if not isinstance(c, ast.Call):
+                continue
+            full = fi.module.resolve(dotted(c.func) or "")
+            if not (full.startswith("jinja2.") and full.rsplit(".", 1)[-1].endswith("Environment")):
+                continue
+            n_env += 1
+            k = f"{fi.fq}|{full.rsplit('.', 1)[-1]}"
+            if "Sandboxed" in full:
+                rep.ok("C01.R18", k, fi.module.site(c), "sandboxed")
+            else:
+                rep.violation(
+                    "C01.R18",
+                    k,
+                    fi.module.site(c),
+                    f"`{short(c, 60)}` is a plain jinja2 Environment: a substitution such as `{{{{ lipsum.__globals__['__builtins__']['exit']() }}}}` reaches __builtins__ and "
+                    "runs arbitrary code (SystemExit, file reads, settings changes) during the parse; use jinja2.sandbox.SandboxedEnvironment",
+                )
+    if n_env < 1:
+        rep.error("C01.R18", "expected the Jinja environment of render_substitution")
+
+
+# ---------------------------------------------------------------------------
+# R19 what Sphinx pickles with the environment can be pickled
+#
+# ``app.env.myst_config`` holds the MdParserConfig; Sphinx pickles the environment after the reading phase.  A field that
+# can hold a function object (``heading_slug_func`` set in conf.py) makes that ``PicklingError`` - the build aborts
+# without output - unless the class controls its pickled state.
+
+
+@rule("C01.R19")
+def r19_pickled_config(corpus: Corpus, rep: Report, tier: str):
+    rep.rule("C01.R19", "the configuration object stored on the Sphinx environment controls its pickled state for fields that can hold a function")
+    ci = corpus.cls("config.main:MdParserConfig")
+    fields = _config_fields(corpus)
+    stored = [
+        (fi, n) for fi in corpus.all_functions() if not fi.is_lambda for n in fi.local_nodes()
+        if isinstance(n, ast.Assign) and any(isinstance(t, ast.Attribute) and t.attr == "myst_config" and (dotted(t.value) or "").endswith("env") for t in n.targets)
+    ]
+    if not stored:
+        rep.ok("C01.R19", f"{ci.fq}|stored on the environment", ci.module.site(ci.node), "the configuration is not stored on the Sphinx environment")
+        return
+    callable_fields = []
+    for f, m in fields.items():
+        v = m.get("validator")
+        names = {x.id for x in ast.walk(v) if isinstance(x, ast.Name)} if v is not None else set()
+        if "is_callable" in names or any("slug_func" in n_ or "callable" in n_ for n_ in names):
+            callable_fields.append(f)
+    k = f"{ci.fq}|pickled with the Sphinx environment"
+    site = ci.module.site(ci.node)
+    if not callable_fields:
+        rep.ok("C01.R19", k, site, "no field can hold a function object")
+        return
+    gs = ci.methods.get("__getstate__") or ci.methods.get("__reduce__") or ci.methods.get("__reduce_ex__")
+    missing = [f for f in callable_fields if gs is None or not any(isinstance(x, ast.Constant) and x.value == f for x in ast.walk(gs.node))]
+    if not missing:
+        rep.ok("C01.R19", k, site, f"{gs.name} handles {', '.join(callable_fields)}")
+    else:
+        rep.violation(
+            "C01.R19",
+            k,
+            fi_site(stored[0]),
+            f"the MdParserConfig stored as env.myst_config can hold a function in {', '.join(missing)} (e.g. `def myst_heading_slug_func(title)` in conf.py) and has no "
+            "__getstate__ that replaces it: Sphinx pickles the environment after reading -> PicklingError, the build aborts without output",
+        )
+
+
+def fi_site(pair) -> str:
+    fi, n = pair
+    return fi.module.site(n)
+
+
+# ---------------------------------------------------------------------------
+# R20 a transform that deletes a node attribute guards its own reads of that attribute
+#
+# docutils applies a parser's transforms to the sub-document of an rST ``include`` with ``:parser:`` and again to the
+# main document: the second run meets the nodes the first run already rewrote.  A transform that executes
+# ``del node["k"]`` therefore needs ``"k" in node`` before it reads ``node["k"]``.
+
+
+@rule("C01.R20")
+def r20_transform_reapplication(corpus: Corpus, rep: Report, tier: str):
+    rep.rule("C01.R20", "a transform that deletes a node attribute reads that attribute only under a membership test (transforms run twice for rST include with :parser:)")
+    n = 0
+    for ci in corpus.all_classes():
+        if not any(b.rsplit(".", 1)[-1] in ("Transform", "SphinxPostTransform", "SphinxTransform") for b in ci.bases):
+            continue
+        for f in ci.methods.values():
+            if f.is_lambda:
+                continue
+            dels = [(unparse(t.value), t.slice.value) for d in f.local_nodes() if isinstance(d, ast.Delete) for t in d.targets if isinstance(t, ast.Subscript) and isinstance(t.slice, ast.Constant) and isinstance(t.slice.value, str)]
+            for var, key in sorted(set(dels)):
+                n += 1
+                k = f"{f.fq}|del {var}[{key!r}]"
+                bad = None
+                for r in sorted((x for x in f.local_nodes() if isinstance(x, ast.Subscript) and isinstance(x.ctx, ast.Load) and unparse(x.value) == var and isinstance(x.slice, ast.Constant) and x.slice.value == key), key=lambda x: (x.lineno, x.col_offset)):
+                    ok = _inside_try_catching(r, "KeyError")
+                    for t, pol in _facts_at(f, r):
+                        if isinstance(t, ast.Compare) and len(t.ops) == 1 and isinstance(t.left, ast.Constant) and t.left.value == key and unparse(t.comparators[0]) == var:
+                            if (isinstance(t.ops[0], ast.In) and pol) or (isinstance(t.ops[0], ast.NotIn) and not pol):
+                                ok = True
+                    if not ok:
+                        bad = r
+                        break
+                if bad is None:
+                    rep.ok("C01.R20", k, f.site(), "reads of the deleted attribute are under a membership test")
+                else:
+                    rep.violation(
+                        "C01.R20",
+                        k,
+                        f.module.site(bad),
+                        f"`{short(bad, 40)}` is read without `{key!r} in {var}` although the same transform deletes it: on its second application (rST `.. include:: x.md` with "
+                        f"`:parser:`; the sub-document and the main document both run the parser's transforms) the attribute is gone -> KeyError out of the transform",
+                    )
+    if n == 0:
+        rep.note("C01.R20: no transform deletes a node attribute")
+        rep.ok("C01.R20", "transforms|deleted attributes", "myst_parser/mdit_to_docutils/transforms.py", "no transform deletes a node attribute")
+
+
+# ---------------------------------------------------------------------------
+# R21 queued docutils transforms whose pending node left the document are dropped
+#
+# A directive can parse its content and then discard it (``table`` without a table).  ``pending`` nodes in there
+# (a local ``contents``) stay queued in ``document.transformer.transforms``; docutils' transform then works on a node
+# outside the tree (Contents: AttributeError).  The renderer's finalisation must filter the queue.
+
+
+@rule("C01.R21")
+def r21_detached_pending(corpus: Corpus, rep: Report, tier: str):
+    rep.rule("C01.R21", "the renderer drops queued transforms whose pending node is no longer in the document before it finishes")
+    render = corpus.func("mdit_to_docutils.base:DocutilsRenderer.render")
+    g = get_callgraph(corpus)
+    cands = [render] + [t for call, targets in g.callees(render) for t in g.flat_targets(targets) if t.cls is not None and not t.is_lambda]
+    found = None
+    for f in cands:
+        for st in f.local_nodes():
+            if isinstance(st, ast.Assign) and len(st.targets) == 1 and isinstance(st.targets[0], ast.Attribute) and st.targets[0].attr == "transforms":
+                v = st.value
+                if isinstance(v, (ast.ListComp, ast.GeneratorExp)) or (isinstance(v, ast.Call) and v.args and isinstance(v.args[0], (ast.ListComp, ast.GeneratorExp))):
+                    comp = v if isinstance(v, (ast.ListComp, ast.GeneratorExp)) else v.args[0]
+                    if comp.generators[0].ifs and any(isinstance(x, ast.Compare) and isinstance(x.ops[0], ast.In) for t_ in comp.generators[0].ifs for x in ast.walk(t_)):
+                        uses_pending = any(isinstance(x, ast.Attribute) and x.attr == "pending" for x in f.local_nodes())
+                        if uses_pending:
+                            found = (f, st)
+    k = f"{render.fq}|queued transforms of detached pending nodes are dropped"
+    if found is not None:
+        f, st = found
+        cfg = get_cfg(f)
+        S = cfg.stmt_of(st)
+        if cfg.paths_avoiding("ENTRY", "EXIT", lambda nd: nd is S):
+            rep.violation("C01.R21", k, f.module.site(st), "the filter of document.transformer.transforms is not executed on every path of the finalisation")
+        else:
+            rep.ok("C01.R21", k, f.module.site(st), f"{f.qualname} keeps only transforms whose pending node is still found in the document")
+    else:
+        rep.violation(
+            "C01.R21",
+            k,
+            render.site(),
+            "nothing removes the queued transforms of pending nodes that a directive discarded with its content: ```{table}``` / {list-table} whose body holds "
+            "`{contents} :local:` but no table leaves a detached pending node, and docutils' Contents transform raises AttributeError on it",
+        )
+
+
+# ---------------------------------------------------------------------------
+# R22 a pending node names only transformer components that exist for every document the parser runs on
+#
+# ``nodes.pending(Filter, {"component": "writer", ...})`` is resolved by docutils' Filter transform through
+# ``document.transformer.components["writer"]``.  For the sub-document of an rST ``include`` with ``:parser:`` the
+# transformer only knows the parser component: KeyError 'writer' out of the transform pipeline.
+
+
+@rule("C01.R22")
+def r22_pending_components(corpus: Corpus, rep: Report, tier: str):
+    rep.rule("C01.R22", "pending(Filter, component=...) nodes only name transformer components that exist in every way the parser can be run")
+    n = 0
+    for fi in corpus.all_functions():
+        if fi.is_lambda:
+            continue
+        for c in fi.local_nodes():
+            if not (isinstance(c, ast.Call) and fi.module.resolve(dotted(c.func) or "").endswith("nodes.pending") and len(c.args) >= 2 and isinstance(c.args[1], ast.Dict)):
+                continue
+            comp = next((v for k_, v in zip(c.args[1].keys, c.args[1].values) if isinstance(k_, ast.Constant) and k_.value == "component"), None)
+            if comp is None:
+                continue
+            n += 1
+            name = comp.value if isinstance(comp, ast.Constant) else None
+            k = f"{fi.fq}|pending({short(c.args[0], 20)}, component={name!r})"
+            tolerant = False
+            tci = fi.module.classes.get(dotted(c.args[0]) or "")
+            if tci is not None and "apply" in tci.methods:
+                tolerant = any(isinstance(x, ast.Compare) and isinstance(x.ops[0], (ast.In, ast.NotIn)) and "components" in unparse(x.comparators[0]) for x in tci.methods["apply"].local_nodes())
+            if name in ("parser", "reader") or tolerant or _inside_try_catching(c, "KeyError"):
+                rep.ok("C01.R22", k, fi.module.site(c), "the component is present whenever the parser runs")
+            else:
+                rep.violation(
+                    "C01.R22",
+                    k,
+                    fi.module.site(c),
+                    f"`{short(c, 70)}` is resolved by docutils' Filter transform through transformer.components[{name!r}]; when the file is included from rST with "
+                    "`:parser: myst_parser.docutils_` the sub-document's transformer only has the parser component: KeyError out of the transform pipeline",
+                )
+    if n == 0:
+        rep.ok("C01.R22", "package|pending(Filter)", "myst_parser", "no pending node names a transformer component")
+
+
 RULES = [
     r1_failure_mode_closure, r2_token_line, r3_html_attr_none, r4_reentry_guards, r5_loop_progress, r6_yaml_narrowing, r7_single_registration,
     r8_nullable_env_slots, r9_document_attributes, r10_config_divisors, r11_disable_syntax, r12_handler_attributes, r13_rebound_loop_key,
     r14_heading_offset, r15_registry_none, r16_settings_attributes, r17_transition_parent,
+    r18_document_chosen_code, r19_pickled_config, r20_transform_reapplication, r21_detached_pending, r22_pending_components,
 ]
 
 
@@ -3272,12 +3564,9 @@ def mutants(corpus: Corpus):
     h = find_node(f, lambda n: isinstance(n, ast.ExceptHandler) and n.type is not None and unparse(n.type) == "Exception")
     if h is not None:
         out.append(Mutant("c01-merge-except-narrowed", "C01.R1", cm.rel, splice(cm.src, h.type, "TypeError"), expect="config"))
-    # 5. include mock: drop `except Exception` around read_text
     mk = corpus.mod("mocking")
-    f = mk.func("MockIncludeDirective.run")
-    h = find_node(f, lambda n: isinstance(n, ast.ExceptHandler) and n.type is not None and unparse(n.type) == "Exception")
-    if h is not None:
-        out.append(Mutant("c01-include-read-except-narrowed", "C01.R1", mk.rel, splice(mk.src, h.type, "PermissionError"), expect="read_text", canary=True))
+    # 5. (include mock `except Exception` around read_text: since d6174ee run_directive reports every failure of a directive's
+    #    run(), so narrowing that handler no longer lets anything escape - the mutant was retired)
     # 6. a new raise on a render path
     f = base.func("DocutilsRenderer.render_hr")
     out.append(Mutant("c01-raise-on-render-path", "C01.R1", base.rel, splice(base.src, f.node.body[0], "if token.markup == '___':\n            raise KeyError(token.markup)\n        " + ast.get_source_segment(base.src, f.node.body[0])), expect="render_hr"))
@@ -3327,11 +3616,7 @@ def mutants(corpus: Corpus):
     iff = find_node(f, lambda n: isinstance(n, ast.If) and "isinstance(data, dict)" in unparse(n.test))
     if iff is not None:
         out.append(Mutant("c01-front-matter-narrowing-dropped", "C01.R6", base.rel, splice(base.src, iff.test, "data is None"), expect="data", canary=True))
-    # 12. run_directive no longer catches MockingError
-    f = base.func("DocutilsRenderer.run_directive")
-    h = find_node(f, lambda n: isinstance(n, ast.ExceptHandler) and n.type is not None and unparse(n.type) == "MockingError")
-    if h is not None:
-        out.append(Mutant("c01-mockingerror-handler-narrowed", "C01.R1", base.rel, splice(base.src, h.type, "NotImplementedError"), expect="MockingError"))
+    # 12. (MockingError handler: subsumed by the catch-all of d6174ee, retired)
     # --- regressions of the repaired defects (each fix reverted) ---
     for modname, q, tag in (("config.main", "read_topmatter", "topmatter"), ("mdit_to_docutils.base", "DocutilsRenderer.render_front_matter", "front-matter"), ("parsers.directives", "_parse_directive_options", "as-yaml")):
         m = corpus.mod(modname)
@@ -3520,10 +3805,13 @@ def mutants(corpus: Corpus):
             out.append((f"c01-relfn2path-try-dropped-{tag}", f"{q}: relfn2path is not inside a try"))
     f = sx_.func("SphinxRenderer.render_link_path")
     iff = find_node(f, lambda n: isinstance(n, ast.If) and isinstance(n.test, ast.Compare) and isinstance(n.test.left, ast.Constant) and n.test.left.value == "\x00")
+    if iff is None:
+        # the later shape: `if not <witness of a successful relfn2path>: warn; return` before the download_reference
+        iff = find_node(f, lambda n: isinstance(n, ast.If) and isinstance(n.test, ast.UnaryOp) and isinstance(n.test.op, ast.Not) and isinstance(n.test.operand, ast.Name) and n.body and isinstance(n.body[-1], ast.Return))
     if iff is not None:
         out.append(Mutant("c01-download-target-nul-test-dropped", "C01.R1", sx_.rel, splice(sx_.src, iff.test, "False"), expect="download_reference("))
     else:
-        out.append(("c01-download-target-nul-test-dropped", "render_link_path has no NUL test"))
+        out.append(("c01-download-target-nul-test-dropped", "render_link_path has neither a NUL test nor a witness test before the download_reference"))
     # --- the RecursionError repair (6b9f5b4) reverted at its three yaml.safe_load sites ---
     for modname, q, tag in (("config.main", "read_topmatter", "topmatter"), ("mdit_to_docutils.base", "DocutilsRenderer.render_front_matter", "front-matter"), ("parsers.directives", "_parse_directive_options", "as-yaml")):
         m_ = corpus.mod(modname)
@@ -3560,6 +3848,74 @@ def mutants(corpus: Corpus):
         out.append(Mutant("c01-disable-ignore-invalid-false", "C01.R11", mdm_.rel, splice(mdm_.src, dcall.args[1], "False"), expect="unknown names"))
     else:
         out.append(("c01-disable-ignore-invalid-dropped", "create_md_parser does not call md.disable(x, True)"))
+    # --- round 10: repairs of the hunted defects, reverted ---
+    # d6174ee: the catch-all around directive_instance.run()
+    f = base.func("DocutilsRenderer.run_directive")
+    tr_d = find_node(f, lambda n: isinstance(n, ast.Try) and any(isinstance(c, ast.Call) and unparse(c.func).endswith("directive_instance.run") for b in n.body for c in ast.walk(b)))
+    h = next((h_ for h_ in (tr_d.handlers if tr_d is not None else []) if h_.type is not None and unparse(h_.type) == "Exception"), None)
+    if h is not None:
+        out.append(Mutant("c01-directive-run-catch-all-narrowed", "C01.R1", base.rel, splice(base.src, h.type, "(KeyError, TypeError)"), expect="directive_instance.run()", canary=True))
+    else:
+        out.append(("c01-directive-run-catch-all-narrowed", "run_directive has no `except Exception` around directive_instance.run()"))
+    # 0a802ad: LookupError / AttributeError of PyYAML's constructors for tagged scalars
+    for modname, q, tag in (("config.main", "read_topmatter", "topmatter"), ("mdit_to_docutils.base", "DocutilsRenderer.render_front_matter", "front-matter"), ("parsers.directives", "_parse_directive_options", "as-yaml")):
+        m_ = corpus.mod(modname)
+        f = m_.func(q)
+        h = find_node(f, lambda n: isinstance(n, ast.ExceptHandler) and n.type is not None and "YAMLError" in unparse(n.type))
+        if h is not None and isinstance(h.type, ast.Tuple) and any(unparse(e) == "LookupError" for e in h.type.elts):
+            kept = ", ".join(unparse(e) for e in h.type.elts if unparse(e) not in ("LookupError", "AttributeError"))
+            out.append(Mutant(f"c01-yaml-tagged-scalar-handler-reverted-{tag}", "C01.R1", m_.rel, splice(m_.src, h.type, f"({kept})"), expect="|KeyError|"))
+        else:
+            out.append((f"c01-yaml-tagged-scalar-handler-reverted-{tag}", f"{q}: the YAML handler does not name LookupError"))
+    # 4dae2c7: global_only fields refused in the front matter; e6abf42: sandboxed substitution environment
+    f = cm.func("merge_file_level")
+    gif = find_node(f, lambda n: isinstance(n, ast.If) and "global_only" in unparse(n.test))
+    if gif is not None:
+        out.append(Mutant("c01-global-only-field-accepted-in-front-matter", "C01.R18", cm.rel, splice(cm.src, gif.test, "False"), expect="global_only fields refused"))
+    else:
+        out.append(("c01-global-only-field-accepted-in-front-matter", "merge_file_level has no global_only test"))
+    f = base.func("DocutilsRenderer.render_substitution")
+    envc = find_node(f, lambda n: isinstance(n, ast.Call) and "SandboxedEnvironment" in unparse(n.func))
+    if envc is not None:
+        out.append(Mutant("c01-substitution-environment-not-sandboxed", "C01.R18", base.rel, splice(base.src, envc.func, "jinja2.Environment"), expect="render_substitution|Environment"))
+    else:
+        out.append(("c01-substitution-environment-not-sandboxed", "render_substitution does not build a SandboxedEnvironment"))
+    # c6e9713: __getstate__ of the pickled configuration
+    gs = corpus.cls("config.main:MdParserConfig").methods.get("__getstate__")
+    if gs is not None:
+        name_tok = gs.node
+        src_ = cm.src
+        line = cm.lines[gs.node.lineno - 1]
+        col = line.index("__getstate__")
+        fake = ast.Name(id="x", lineno=gs.node.lineno, col_offset=col, end_lineno=gs.node.lineno, end_col_offset=col + len("__getstate__"))
+        out.append(Mutant("c01-config-getstate-dropped", "C01.R19", cm.rel, splice(cm.src, fake, "_getstate_unused"), expect="pickled with the Sphinx environment"))
+    else:
+        out.append(("c01-config-getstate-dropped", "MdParserConfig has no __getstate__"))
+    # 3496400: the guard against the second application of ResolveAnchorIds
+    tmx = corpus.mod("mdit_to_docutils.transforms")
+    f = tmx.func("ResolveAnchorIds.apply")
+    gcmp = find_node(f, lambda n: isinstance(n, ast.Compare) and isinstance(n.ops[0], ast.NotIn) and isinstance(n.left, ast.Constant) and n.left.value == "refuri")
+    if gcmp is not None:
+        out.append(Mutant("c01-anchor-transform-reapplication-guard-dropped", "C01.R20", tmx.rel, splice(tmx.src, gcmp, "False"), expect="del refnode['refuri']"))
+    else:
+        out.append(("c01-anchor-transform-reapplication-guard-dropped", "ResolveAnchorIds.apply has no `'refuri' not in` test"))
+    # b2365f8: queued transforms of detached pending nodes
+    f = base.func("DocutilsRenderer._render_finalise")
+    flt = find_node(f, lambda n: isinstance(n, ast.Assign) and isinstance(n.targets[0], ast.Attribute) and n.targets[0].attr == "transforms")
+    if flt is not None:
+        out.append(Mutant("c01-detached-pending-transforms-kept", "C01.R21", base.rel, splice(base.src, flt, "pass"), expect="queued transforms"))
+    else:
+        out.append(("c01-detached-pending-transforms-kept", "_render_finalise does not filter transformer.transforms"))
+    # 0999667: readline as a recursion per read
+    iv = corpus.mod("inventory")
+    f = iv.func("InventoryFileReader.readline")
+    w_ = find_node(f, lambda n: isinstance(n, ast.While))
+    rb_ = next((x for x in (w_.body if w_ is not None else []) if isinstance(x, ast.Expr) and unparse(x) == "self.read_buffer()"), None)
+    if rb_ is not None:
+        ind = " " * rb_.col_offset
+        out.append(Mutant("c01-readline-recurses-per-read", "C01.R5", iv.rel, splice(iv.src, rb_, f"self.read_buffer()\n{ind}return self.readline()"), expect="recursion instead of a loop"))
+    else:
+        out.append(("c01-readline-recurses-per-read", "readline has no `while ...: self.read_buffer()` loop"))
     # --- the repair of F9 (2ea1b0a, HideNestedTransitions) reverted in three ways (R17) ---
     hider, _ = _transitions_hidden_by(corpus)
     if hider is not None:
